@@ -123,7 +123,7 @@ pub fn run(mode: Mode) -> i32 {
     let nontrivial = AtomicU64::new(0);
     let archives = AtomicU64::new(0);
     let queries = AtomicU64::new(0);
-    let capoff_every = 50usize; // a fixed 2% of archives is built with the zstd cap off
+    let capoff_every = if th { 50usize } else { 100 }; // a fixed 2% (quick: 1%) of archives is built with the zstd cap off
     let counter = AtomicUsize::new(0);
     let table: Mutex<BTreeMap<String, String>> = Mutex::new(BTreeMap::new());
     let capoff_cases: Mutex<Vec<(String, String, Vec<Sample>, Cfg)>> = Mutex::new(Vec::new());
@@ -189,7 +189,7 @@ pub fn run(mode: Mode) -> i32 {
                         Err(p) => rep.violation(&format!("{prop}:extract_panic:{}", short_loc(&last_panic_loc())), "get_sample panicked", det(json!({"panic": p}))),
                     }
                 }
-                if n % 61 == 5 || case.id.starts_with("big60.multi") {
+                if n % (if th { 61 } else { 97 }) == 5 || case.id.starts_with("big60.multi") {
                     cli_roundtrip(&rep, case, &dir);
                 }
                 if n % capoff_every == 7 {
@@ -315,7 +315,7 @@ pub fn run(mode: Mode) -> i32 {
     }
     rep.set_exhaustive(true);
     rep.assume("block contents are seeded pseudo-random (VERIF_SEED); the structure (which edit where, which sample layout, which configuration) is enumerated");
-    rep.assume("zstd level cap hook active for collection metadata except for a fixed 2% share of archives (C01) ");
+    rep.assume("zstd level cap hook active for collection metadata except for a fixed 2% (quick tier: 1%) share of archives (C01)");
     rep.finish()
 }
 
@@ -350,7 +350,7 @@ fn ranges_on_archive(rep: &Report, path: &str, case: &Case, thorough: bool) -> u
                         pos += if i == 0 { sd.raw_length as usize } else { (sd.raw_length as usize).saturating_sub(k) };
                         junctions.push(pos);
                     }
-                    let w = if thorough { k + 1 } else { 2 };
+                    let w = if thorough { k + 1 } else { 1 };
                     for j in junctions {
                         for x in j.saturating_sub(w)..=j + w { pts.push(x); }
                         pts.push(j.saturating_sub(k));
